@@ -57,3 +57,23 @@ Print Assumptions C11_translated_epilogue.
 Theorem C11_translated_reduction : refines_long_stmt -> refines_stmt.
 Proof. exact refines_partial. Qed.
 Print Assumptions C11_translated_reduction.
+
+(* ---- THE WHOLE METHOD: the fast compressor AS TRANSLATED from block.go on this run equals the model ----
+   C11_translated_equals_model: for every prior content of the object's table and bitmap, every source,
+   every destination (any length, any prior contents, any spare capacity) and enough fuel, the translated
+   Compressor.CompressBlock and the model compress_fast_list agree: same count, same error, same bytes written
+   (a run-time panic exactly where the model has one, which C11_fast excludes).
+   C11_translated_contract: hence the destination contract holds of the translated code itself: it returns
+   (never panics, never runs out of fuel); either err = nil and n > 0, n <= len(dst), dst = block ++ untouched
+   rest, the block parses back strictly and decodes to exactly the source; or n = 0 with err nil or
+   ErrInvalidSourceShortBuffer and len(dst) < CompressBlockBound(len(src)). *)
+From LZ4V Require Import GenCompressBodyMain GenCompressBodyCorollaries.
+(* refines_stmt (GenCompressBodyProofs.v) is: forall fuel table inUse src src_spare dst dst_spare, under the
+   well-formedness hypotheses listed in C11_translated_contract's statement,
+   agrees (compress_fast_list src (znth table) (zlen dst)) (the translated method run on these inputs) dst dst_spare = true *)
+Theorem C11_translated_equals_model : refines_stmt.
+Proof. exact refines_all. Qed.
+Print Assumptions C11_translated_equals_model.
+Theorem C11_translated_contract : translated_contract_stmt.
+Proof. exact translated_contract. Qed.
+Print Assumptions C11_translated_contract.
